@@ -3,7 +3,8 @@
 From Coq Require Import List NArith ZArith.
 From Gemato Require Import Py.PyStr Py.PyPath Gen.Tables Model.Entry Model.Text Model.OpenPGP Model.Hash
   Model.FS Model.Verify Model.Loader.
-From Gemato Require Import Proofs.Chain.
+From Gemato Require Import Exec.Oracles.
+From Gemato Require Import Proofs.Chain Proofs.ReadSafe Proofs.ChainOps.
 Import ListNotations.
 Open Scope N_scope.
 
@@ -31,3 +32,47 @@ Theorem C02_broken_link : forall (L : hashlib) decompress pgp w l mp e l' m,
   exists d, Verify.verify_path L w (pjoin rootdir mp) (Some e) None None = Ok (true, d).
 Proof. intros. eapply load_manifest_verified. eassumption. Qed.
 Print Assumptions C02_broken_link.
+
+(* The consumers.  Any history of reading operations on one loader object (entry lookup, single-path verification,
+   assert_path_verifies, DIST / TIMESTAMP lookup, directory verification with any handler) keeps the invariant ... *)
+Theorem C02_reading_keeps_chain : forall (L : hashlib) decompress pgp w ops l l',
+  Faithful decompress pgp w l /\ Accepted L decompress pgp w l ->
+  run_rops L decompress pgp w l ops = Ok l' ->
+  Faithful decompress pgp w l' /\ Accepted L decompress pgp w l'.
+Proof. exact read_ops_inv. Qed.
+Print Assumptions C02_reading_keeps_chain.
+
+(* ... and what a lookup answers after such a history is an entry of a Manifest that is loaded - top-level or vouched for by
+   a matching MANIFEST entry of a loaded Manifest - at that moment: no entry of an unvouched Manifest influences it. *)
+Theorem C02_lookup_answers_from_accepted : forall (L : hashlib) decompress pgp w top opts xdev ops l0 l path l' e,
+  new_loader L decompress pgp w top opts false xdev = Ok l0 ->
+  run_rops L decompress pgp w l0 ops = Ok l ->
+  find_path_entry_l L decompress pgp w l path = Ok (l', Some e) ->
+  Accepted L decompress pgp w l' /\ from_loaded l' e.
+Proof. exact lookup_after_history. Qed.
+Print Assumptions C02_lookup_answers_from_accepted.
+
+Theorem C02_dist_lookup_answers_from_accepted : forall (L : hashlib) decompress pgp w l f relpath l' e,
+  Faithful decompress pgp w l /\ Accepted L decompress pgp w l ->
+  find_dist_entry_l L decompress pgp w l f relpath = Ok (l', Some e) ->
+  (Faithful decompress pgp w l' /\ Accepted L decompress pgp w l') /\ from_loaded l' e.
+Proof. exact find_dist_entry_from_loaded. Qed.
+Print Assumptions C02_dist_lookup_answers_from_accepted.
+
+(* non-vacuity of C02_lookup_answers_from_accepted: a Manifest ('MANIFEST s/Manifest 9', the sub-Manifest 'DATA a 1'), the
+   file s/a; after a directory verification the lookup of s/a answers with the entry of the vouched sub-Manifest *)
+Definition ex_w : world :=
+  mk_world 1 [(1, IDir 7 1 [([77;97;110;105;102;101;115;116], TIno 2); ([115], TIno 4)]);
+              (2, IFile 7 0 22 [77;65;78;73;70;69;83;84;32;115;47;77;97;110;105;102;101;115;116;32;57;10]);
+              (4, IDir 7 1 [([77;97;110;105;102;101;115;116], TIno 5); ([97], TIno 3)]);
+              (5, IFile 7 0 9 [68;65;84;65;32;97;32;49;10]);
+              (3, IFile 7 0 1 [120])] [] [].
+Definition ex_L := table_hashlib [].
+Definition ex_dec : list N -> list N -> res (list N) := fun _ _ => Err XBadCompressed.
+Definition ex_pgp : list N -> res sigdata := fun _ => Err (XPGP PGPNoImpl).
+Example C02_lookup_premises_satisfiable :
+  exists l0 l l' e,
+    new_loader ex_L ex_dec ex_pgp ex_w [77;97;110;105;102;101;115;116] (mk_opts None false None [] PDefault None None false) false true = Ok l0 /\
+    run_rops ex_L ex_dec ex_pgp ex_w l0 [RVerifyDir [] PolThrow None] = Ok l /\
+    find_path_entry_l ex_L ex_dec ex_pgp ex_w l [115;47;97] = Ok (l', Some e) /\ e = EFile TDATA [97] [] 1 [].
+Proof. vm_compute. do 4 eexists. repeat split; reflexivity. Qed.
